@@ -42,7 +42,9 @@ MODEL_SCOPE = ('modelled: correct_json_route_list, compute_constrained_path deci
                'must be a walk and honour the list), ispart, find_reversed_path, edge-weight rule (fibre metres / 0.01); '
                'oracle instead of a model for networkx shortest_simple_paths / dijkstra_path. One STRICT hop makes the '
                'whole list STRICT (documented simplification of the code, adopted by the monitor). not modelled: '
-               'PathRequest parameter plumbing, propagation (C13), spectrum assignment (C14)')
+               'PathRequest parameter plumbing, propagation (C13), spectrum assignment (C14). Requests with source = '
+               'destination are outside the property\'s input space (planning() cannot serve them: propagation over the '
+               'one-element path raises IndexError) and are never generated')
 TRUSTED = ['the harness reads the DiGraph (nodes, edges) and Fiber.params.length from the implementation and numbers '
            'the nodes; fibre lengths are integral metres in every generated network (checked per case)']
 
@@ -100,8 +102,6 @@ def _fill(rng, item):
 def gen_request(rng, mesh, rid, allow_bidir=True, malformed_ok=True):
     n = mesh['n']
     s, t = rng.sample(range(n), 2) if n >= 2 else (0, 0)
-    if rng.random() < 0.02:
-        t = s
     style = rng.choice(['none', 'none', 'roadms', 'lines', 'along', 'along', 'swapped', 'explicit', 'explicit',
                         'revisit', 'malformed'])
     if style == 'malformed' and not malformed_ok:
@@ -151,7 +151,7 @@ def gen_request(rng, mesh, rid, allow_bidir=True, malformed_ok=True):
             a, b = rng.choice(back)
             c = rng.choice([x for x in outs[a] if x != b])
             s = a
-            t = c if rng.random() < 0.7 else rng.choice(range(n))
+            t = c if rng.random() < 0.7 else rng.choice([x for x in range(n) if x != a])
             src, dst = ['T', s], ['T', t]
             inc = [['L', a, b, None], ['L', b, a, None], ['L', a, c, None]]
     elif style == 'malformed':
@@ -166,10 +166,6 @@ def gen_request(rng, mesh, rid, allow_bidir=True, malformed_ok=True):
         else:
             dst = rng.choice([['U', 'trx N99'], ['R', t]])
         inc = base
-    if s == t and style in ('lines', 'explicit', 'revisit', 'along', 'swapped'):
-        # degenerate request (source = destination): kept only with ROADM / malformed / empty lists, where the code
-        # consistently answers the one-node path [trx]; see the report for the explicit-chain corner
-        inc = [it for it in inc if it[0] != 'L']
     inc = [_fill(rng, it) for it in inc]
     # no repeated include node (see RULE); L items of one line may resolve to the same element: resolved in run()
     seen, uniq = set(), []
